@@ -285,8 +285,8 @@ class C03(Prop):
     REAL_VS_STUB = {'real': ['dataflows dumpers + load, tabulator, tableschema, datapackage, zipfile, the file system'], 'stub': ['process environment (TZ) of the verifying process']}
     PROBES = ['json-format', 'zip-target', 'filehash-in-path', 'temporal-format-property', 'non-alphabetical-fields', 'row-key-order-differs', 'year-below-1000', 'newline-in-cell',
               'non-bmp-unicode', 'high-precision-decimal', 'primary-key', 'padded-string', 'multi-resource', 'rows-edited-after-the-dumper']
-    TIERS = {'quick': dict(runs=700, wall=100, run_wall=120),
-             'thorough': dict(runs=25000, wall=1700, run_wall=300)}
+    TIERS = {'quick': dict(runs=700, wall=100, run_wall=300),
+             'thorough': dict(runs=25000, wall=1700, run_wall=600)}
     SHRINK_FROZEN = ('fields',)
 
     def generate(self, rng, tier):
